@@ -5,7 +5,10 @@
 (*           with the digest of its answer, plus ref = the digest a fresh  *)
 (*           runner gave when that accessor was its only call;             *)
 (*  "seeds": the digests of the canonical dump of one script in processes  *)
-(*           started with different PYTHONHASHSEED.                        *)
+(*           started with different PYTHONHASHSEED;                        *)
+(*  "repeat": the digests of the canonical dump of one script analysed     *)
+(*           several times in ONE process with ONE provider object (the    *)
+(*           first entry is the dump of a fresh process-wide first run).   *)
 (***************************************************************************)
 EXTENDS Accessors, IOUtils
 Traces == JsonDeserialize(IOEnv.TRACE_FILE)
@@ -17,6 +20,7 @@ TNext == /\ verdict = "run"
             ELSE LET e == T.ev[l] IN
                  IF T.kind = "calls" /\ e.digest # T.ref[e.a] THEN verdict' = "accessor_answer_differs:" \o e.a /\ UNCHANGED l
                  ELSE IF T.kind = "seeds" /\ e.digest # T.ev[1].digest THEN verdict' = "differs_across_hash_seeds" /\ UNCHANGED l
+                 ELSE IF T.kind = "repeat" /\ e.digest # T.ev[1].digest THEN verdict' = "differs_across_repetitions" /\ UNCHANGED l
                  ELSE verdict' = "run" /\ l' = l + 1
          /\ UNCHANGED <<vars, tid>>
 TSpec == TInit /\ [][TNext]_<<vars, tid, l, verdict>>
